@@ -13,7 +13,12 @@ run_demo() {
     timeout 600 sh "$M/demo.sh" "$WT" >/tmp/confirm/$NAME.demo.log 2>&1; return $?
   else
     pkgdir=$(python3 -c "import json,sys; m=json.load(open('$M/meta.json')); d=m.get('demo_dir') or m.get('package') or ''; print(d)" 2>/dev/null)
-    if [ -z "$pkgdir" ] || [ ! -d "$WT/$pkgdir" ]; then pkgdir=$(grep -o 'pkg/[a-z/]*' "$M/meta.json" | head -1); fi
+    if [ -z "$pkgdir" ] || [ ! -d "$WT/$pkgdir" ]; then
+      for c in $(grep -o 'pkg/[a-z/_]*' "$M/meta.json" | sed 's|/*$||' | sort -u); do
+        while [ -n "$c" ] && [ ! -d "$WT/$c" ]; do c=$(dirname "$c"); done
+        if [ -d "$WT/$c" ] && [ "$c" != "pkg" ] && [ "$c" != "." ]; then pkgdir=$c; break; fi
+      done
+    fi
     cp "$M/demo_test.go" "$WT/$pkgdir/zz_demo_test.go"
     timeout 600 go test -vet=off -count=1 -run 'TestC[0-9]|Demo|Mut' ./$pkgdir/ >/tmp/confirm/$NAME.demo.log 2>&1; rc=$?
     rm -f "$WT/$pkgdir/zz_demo_test.go"; return $rc
